@@ -79,6 +79,9 @@ func (o obs) coq() string {
 		return "OBytes " + coqfmt.Bytes(o.Bytes)
 	case "Num":
 		return "ONum " + coqfmt.Z(o.Num)
+	case "Panic":
+		// the backend panicked: an observation no model step produces (sizes are never negative)
+		return "ONum (-1)"
 	}
 	panic("bad obs")
 }
@@ -96,76 +99,93 @@ func runImpl(f storage.File, ops []op) (out []obs) {
 			}
 		}
 	}()
-	for _, o := range ops {
-		switch o.K {
-		case "NewPart":
-			p := f.NewPart()
-			parts = append(parts, p)
-			writer = p.Writer() // one writer per part, as the muxer does
-			out = append(out, obs{K: "None"})
-		case "Write":
-			n, err := writer.Write(o.Bytes)
-			if err != nil || n != len(o.Bytes) {
-				out = append(out, obs{K: "Err"})
-			} else {
-				out = append(out, obs{K: "Ok"})
-			}
-		case "Seek":
-			wh := io.SeekStart
-			if o.Whence == 1 {
-				wh = io.SeekCurrent
-			}
-			pos, err := writer.Seek(o.Off, wh)
-			if err != nil {
-				out = append(out, obs{K: "Err"})
-			} else {
-				out = append(out, obs{K: "Num", Num: pos})
-			}
-		case "Finalize":
-			f.Finalize()
-			out = append(out, obs{K: "None"})
-		case "Remove":
-			f.Remove()
-			out = append(out, obs{K: "None"})
-		case "Snap":
-			r, err := parts[o.P].Reader()
-			if err != nil {
-				out = append(out, obs{K: "Err"})
-				break
-			}
-			b, err := io.ReadAll(r)
-			r.Close()
-			if err != nil {
-				out = append(out, obs{K: "Err"})
-			} else {
-				out = append(out, obs{K: "Bytes", Bytes: b})
-			}
-		case "Open":
-			var r io.ReadCloser
-			var err error
-			if o.File {
-				r, err = f.Reader()
-			} else {
-				r, err = parts[o.P].Reader()
-			}
-			if err != nil {
-				handles = append(handles, nil)
-				out = append(out, obs{K: "Err"})
-			} else {
-				handles = append(handles, r)
-				out = append(out, obs{K: "Ok"})
-			}
-		case "ReadH":
-			h := handles[o.P]
-			if h == nil {
+	for i, o := range ops {
+		i, o := i, o
+		panicked := false
+		func() {
+			defer func() {
+				if rec := recover(); rec != nil {
+					panicked = true
+				}
+			}()
+			switch o.K {
+			case "NewPart":
+				p := f.NewPart()
+				parts = append(parts, p)
+				writer = p.Writer() // one writer per part, as the muxer does
 				out = append(out, obs{K: "None"})
-				break
+			case "Write":
+				n, err := writer.Write(o.Bytes)
+				if err != nil || n != len(o.Bytes) {
+					out = append(out, obs{K: "Err"})
+				} else {
+					out = append(out, obs{K: "Ok"})
+				}
+			case "Seek":
+				wh := io.SeekStart
+				if o.Whence == 1 {
+					wh = io.SeekCurrent
+				}
+				pos, err := writer.Seek(o.Off, wh)
+				if err != nil {
+					out = append(out, obs{K: "Err"})
+				} else {
+					out = append(out, obs{K: "Num", Num: pos})
+				}
+			case "Finalize":
+				f.Finalize()
+				out = append(out, obs{K: "None"})
+			case "Remove":
+				f.Remove()
+				out = append(out, obs{K: "None"})
+			case "Snap":
+				r, err := parts[o.P].Reader()
+				if err != nil {
+					out = append(out, obs{K: "Err"})
+					break
+				}
+				b, err := io.ReadAll(r)
+				r.Close()
+				if err != nil {
+					out = append(out, obs{K: "Err"})
+				} else {
+					out = append(out, obs{K: "Bytes", Bytes: b})
+				}
+			case "Open":
+				var r io.ReadCloser
+				var err error
+				if o.File {
+					r, err = f.Reader()
+				} else {
+					r, err = parts[o.P].Reader()
+				}
+				if err != nil {
+					handles = append(handles, nil)
+					out = append(out, obs{K: "Err"})
+				} else {
+					handles = append(handles, r)
+					out = append(out, obs{K: "Ok"})
+				}
+			case "ReadH":
+				h := handles[o.P]
+				if h == nil {
+					out = append(out, obs{K: "None"})
+					break
+				}
+				buf := make([]byte, o.N)
+				n, _ := h.Read(buf)
+				out = append(out, obs{K: "Bytes", Bytes: append([]byte{}, buf[:n]...)})
+			case "Size":
+				out = append(out, obs{K: "Num", Num: int64(f.Size())})
 			}
-			buf := make([]byte, o.N)
-			n, _ := h.Read(buf)
-			out = append(out, obs{K: "Bytes", Bytes: append([]byte{}, buf[:n]...)})
-		case "Size":
-			out = append(out, obs{K: "Num", Num: int64(f.Size())})
+		}()
+		if panicked {
+			// the op that panicked and everything after it is reported as Panic
+			out = out[:i]
+			for len(out) < len(ops) {
+				out = append(out, obs{K: "Panic"})
+			}
+			return out
 		}
 	}
 	return out
@@ -366,6 +386,17 @@ func genOps(r *rng.R, big bool) []op {
 		final = true
 		reads()
 		reads()
+		if r.Bool(1, 2) && nparts > 1 {
+			// drain the finalized file through one handle in small equal chunks, so that reads end
+			// exactly on inner part boundaries
+			ops = append(ops, op{K: "Open", File: true})
+			nhandles++
+			n := 1 + r.Intn(4)
+			k := 10 + r.Intn(40)
+			for i := 0; i < k; i++ {
+				ops = append(ops, op{K: "ReadH", P: nhandles - 1, N: n})
+			}
+		}
 		if r.Bool(1, 2) {
 			ops = append(ops, op{K: "Remove"})
 			removed = true
@@ -708,16 +739,16 @@ func main() {
 		samples = append(samples, j)
 	}
 	res := map[string]interface{}{
-		"evaluations":        len(inputs),
+		"evaluations":         len(inputs),
 		"distinct_nontrivial": distinctNontrivial,
 		"rule": "op sequences from splitmix64(seed, case index): 0-5 parts, 0-6 writer actions per part (Write 0-48 B, occasionally large; " +
 			"Seek from start / from current incl. negative targets and rewrites), reader ops wherever allowed, Finalize 5/6, Remove 1/2; " +
 			"distinct by SHA-256 of the op list; non-trivial = >=2 parts AND >=1 overwrite of earlier bytes AND >=1 read after Finalize",
-		"samples":         samples,
-		"distribution":    dist,
-		"oracle_failures": failures,
-		"cases":           cases,
-		"shards":          shardIdx + 1,
+		"samples":                       samples,
+		"distribution":                  dist,
+		"oracle_failures":               failures,
+		"cases":                         cases,
+		"shards":                        shardIdx + 1,
 		"traces_validated_against_impl": len(inputs) * 2,
 	}
 	j, _ := json.MarshalIndent(res, "", " ")
